@@ -14,18 +14,21 @@ package rcmgr
 
 //@ func addInt64WithOverflow
 //@ prop C03
+//@ ensures freshZero()
 //@ arith wrap
 //@ ensures ok <==> (MinInt64 <= a + b && a + b <= MaxInt64)
 //@ ensures ok ==> c == a + b
 
 //@ func mulInt64WithOverflow
 //@ prop C03
+//@ ensures freshZero()
 //@ arith wrap
 //@ ensures ok <==> (MinInt64 <= a * b && a * b <= MaxInt64)
 //@ ensures ok ==> c == a * b
 
 //@ func (rc *resources) checkMemory
 //@ prop C03
+//@ ensures freshZero()
 //@ arith wrap
 //@ requires rc.memory >= 0 && rc.limit.GetMemoryLimit() >= 0
 //@ ensures result == nil ==> rsvp >= 0 && rc.memory + rsvp <= MaxInt64
@@ -38,6 +41,7 @@ package rcmgr
 
 //@ func (rc *resources) reserveMemory
 //@ prop C03
+//@ ensures freshZero()
 //@ arith wrap
 //@ requires rc.memory >= 0 && rc.limit.GetMemoryLimit() >= 0
 //@ ensures result == nil ==> size >= 0 && rc.memory == old(rc.memory) + size
@@ -50,6 +54,7 @@ package rcmgr
 
 //@ func (rc *resources) releaseMemory
 //@ prop C03
+//@ ensures freshZero()
 //@ arith wrap
 //@ requires rc.memory >= 0 && size >= 0
 //@ ensures rc.memory == max(0, old(rc.memory) - size)
@@ -57,6 +62,7 @@ package rcmgr
 
 //@ func (rc *resources) addStreams
 //@ prop C03
+//@ ensures freshZero()
 //@ requires nonneg(rc) && incount >= 0 && outcount >= 0
 //@ ensures result == nil ==> rc.nstreamsIn == old(rc.nstreamsIn) + incount && rc.nstreamsOut == old(rc.nstreamsOut) + outcount
 //@ ensures result == nil && incount > 0 ==> rc.nstreamsIn <= rc.limit.GetStreamLimit(network.DirInbound)
@@ -71,11 +77,13 @@ package rcmgr
 
 //@ func (rc *resources) removeStreams
 //@ prop C03
+//@ ensures freshZero()
 //@ ensures rc.nstreamsIn == max(0, old(rc.nstreamsIn) - incount) && rc.nstreamsOut == max(0, old(rc.nstreamsOut) - outcount)
 //@ modifies rc.nstreamsIn, rc.nstreamsOut
 
 //@ func (rc *resources) addConns
 //@ prop C03
+//@ ensures freshZero()
 //@ requires nonneg(rc) && incount >= 0 && outcount >= 0 && fdcount >= 0
 //@ ensures result == nil ==> rc.nconnsIn == old(rc.nconnsIn) + incount && rc.nconnsOut == old(rc.nconnsOut) + outcount &&
 //@         rc.nfd == old(rc.nfd) + fdcount
@@ -89,12 +97,14 @@ package rcmgr
 
 //@ func (rc *resources) removeConns
 //@ prop C03
+//@ ensures freshZero()
 //@ ensures rc.nconnsIn == max(0, old(rc.nconnsIn) - incount) && rc.nconnsOut == max(0, old(rc.nconnsOut) - outcount) &&
 //@         rc.nfd == max(0, old(rc.nfd) - fdcount)
 //@ modifies rc.nconnsIn, rc.nconnsOut, rc.nfd
 
 //@ func (rc *resources) addStream
 //@ prop C03
+//@ ensures freshZero()
 //@ requires nonneg(rc)
 //@ ensures result == nil ==> rc.nstreamsIn == old(rc.nstreamsIn) + ite(dir == network.DirInbound, 1, 0) &&
 //@         rc.nstreamsOut == old(rc.nstreamsOut) + ite(dir == network.DirInbound, 0, 1)
@@ -104,12 +114,14 @@ package rcmgr
 
 //@ func (rc *resources) removeStream
 //@ prop C03
+//@ ensures freshZero()
 //@ ensures rc.nstreamsIn == max(0, old(rc.nstreamsIn) - ite(dir == network.DirInbound, 1, 0)) &&
 //@         rc.nstreamsOut == max(0, old(rc.nstreamsOut) - ite(dir == network.DirInbound, 0, 1))
 //@ modifies rc.nstreamsIn, rc.nstreamsOut
 
 //@ func (rc *resources) addConn
 //@ prop C03
+//@ ensures freshZero()
 //@ requires nonneg(rc)
 //@ ensures result == nil ==> rc.nconnsIn == old(rc.nconnsIn) + ite(dir == network.DirInbound, 1, 0) &&
 //@         rc.nconnsOut == old(rc.nconnsOut) + ite(dir == network.DirInbound, 0, 1) &&
@@ -120,6 +132,7 @@ package rcmgr
 
 //@ func (rc *resources) removeConn
 //@ prop C03
+//@ ensures freshZero()
 //@ ensures rc.nconnsIn == max(0, old(rc.nconnsIn) - ite(dir == network.DirInbound, 1, 0)) &&
 //@         rc.nconnsOut == max(0, old(rc.nconnsOut) - ite(dir == network.DirInbound, 0, 1)) &&
 //@         rc.nfd == max(0, old(rc.nfd) - ite(usefd, 1, 0))
@@ -127,6 +140,7 @@ package rcmgr
 
 //@ func (rc *resources) stat
 //@ prop C03
+//@ ensures freshZero()
 //@ ensures result.Memory == rc.memory && result.NumStreamsInbound == rc.nstreamsIn && result.NumStreamsOutbound == rc.nstreamsOut &&
 //@         result.NumConnsInbound == rc.nconnsIn && result.NumConnsOutbound == rc.nconnsOut && result.NumFD == rc.nfd
 //@ modifies nothing
@@ -151,6 +165,7 @@ package rcmgr
 
 //@ func (s *resourceScope) ReserveMemoryForChild
 //@ prop C03
+//@ ensures freshZero()
 //@ requires wfScope(s)
 //@ ensures result1 == nil ==> !s.done && size >= 0 && s.rc.memory == old(s.rc.memory) + size
 //@ ensures result1 != nil ==> s.rc.memory == old(s.rc.memory)
@@ -161,6 +176,7 @@ package rcmgr
 
 //@ func (s *resourceScope) ReleaseMemoryForChild
 //@ prop C03
+//@ ensures freshZero()
 //@ requires wfScope(s) && size >= 0
 //@ ensures !s.done ==> s.rc.memory == max(0, old(s.rc.memory) - size)
 //@ ensures s.done ==> s.rc.memory == old(s.rc.memory)
@@ -168,6 +184,7 @@ package rcmgr
 
 //@ func (s *resourceScope) AddStreamForChild
 //@ prop C03
+//@ ensures freshZero()
 //@ requires wfScope(s)
 //@ ensures result1 == nil ==> !s.done && s.rc.nstreamsIn == old(s.rc.nstreamsIn) + ite(dir == network.DirInbound, 1, 0) &&
 //@         s.rc.nstreamsOut == old(s.rc.nstreamsOut) + ite(dir == network.DirInbound, 0, 1)
@@ -178,6 +195,7 @@ package rcmgr
 
 //@ func (s *resourceScope) RemoveStreamForChild
 //@ prop C03
+//@ ensures freshZero()
 //@ ensures !s.done ==> s.rc.nstreamsIn == max(0, old(s.rc.nstreamsIn) - ite(dir == network.DirInbound, 1, 0)) &&
 //@         s.rc.nstreamsOut == max(0, old(s.rc.nstreamsOut) - ite(dir == network.DirInbound, 0, 1))
 //@ ensures s.done ==> s.rc.nstreamsIn == old(s.rc.nstreamsIn) && s.rc.nstreamsOut == old(s.rc.nstreamsOut)
@@ -185,6 +203,7 @@ package rcmgr
 
 //@ func (s *resourceScope) AddConnForChild
 //@ prop C03
+//@ ensures freshZero()
 //@ requires wfScope(s)
 //@ ensures result1 == nil ==> !s.done && s.rc.nconnsIn == old(s.rc.nconnsIn) + ite(dir == network.DirInbound, 1, 0) &&
 //@         s.rc.nconnsOut == old(s.rc.nconnsOut) + ite(dir == network.DirInbound, 0, 1) &&
@@ -196,6 +215,7 @@ package rcmgr
 
 //@ func (s *resourceScope) RemoveConnForChild
 //@ prop C03
+//@ ensures freshZero()
 //@ ensures !s.done ==> s.rc.nconnsIn == max(0, old(s.rc.nconnsIn) - ite(dir == network.DirInbound, 1, 0)) &&
 //@         s.rc.nconnsOut == max(0, old(s.rc.nconnsOut) - ite(dir == network.DirInbound, 0, 1)) &&
 //@         s.rc.nfd == max(0, old(s.rc.nfd) - ite(usefd, 1, 0))
@@ -204,6 +224,7 @@ package rcmgr
 
 //@ func (s *resourceScope) ReserveForChild
 //@ prop C03
+//@ ensures freshZero()
 //@ requires wfScope(s) && statNonneg(st)
 //@ ensures result == nil ==> !s.done && rcPlus(s, st)
 //@ ensures result != nil ==> rcUnchanged(s)
@@ -214,6 +235,7 @@ package rcmgr
 
 //@ func (s *resourceScope) ReleaseForChild
 //@ prop C03
+//@ ensures freshZero()
 //@ requires wfScope(s) && statNonneg(st)
 //@ ensures !s.done ==> rcMinus(s, st)
 //@ ensures s.done ==> rcUnchanged(s)
@@ -230,11 +252,14 @@ package rcmgr
 
 //@ func (s *resourceScope) reserveMemoryForEdges
 //@ prop C03
+//@ ensures freshZero()
 //@ requires s.owner == nil && size >= 0 && allNonneg() && edgesOK(s)
+//@ loop 0 invariant freshZero()
 //@ loop 0 invariant 0 <= reserved && reserved <= len(s.edges) && idx0 == reserved && err == nil
 //@ loop 0 invariant forall j int :: 0 <= j && j < reserved ==> s.edges[j].rc.memory == old(s.edges[j].rc.memory) + size && !s.edges[j].done
 //@ loop 0 invariant forall r *resources :: (r.memory == old(r.memory)) || (exists j int :: 0 <= j && j < reserved && r == &s.edges[j].rc)
 //@ loop 0 invariant allNonneg()
+//@ loop 1 invariant freshZero()
 //@ loop 1 invariant 0 <= idx1 && idx1 <= reserved && reserved <= len(s.edges) && err != nil
 //@ loop 1 invariant forall j int :: idx1 <= j && j < reserved ==> s.edges[j].rc.memory == old(s.edges[j].rc.memory) + size && !s.edges[j].done
 //@ loop 1 invariant forall r *resources :: (r.memory == old(r.memory)) || (exists j int :: idx1 <= j && j < reserved && r == &s.edges[j].rc)
@@ -249,6 +274,7 @@ package rcmgr
 
 //@ func (s *resourceScope) ReserveMemory
 //@ prop C03
+//@ ensures freshZero()
 //@ requires s.owner == nil && size >= 0 && allNonneg() && edgesOK(s)
 //@ ensures result == nil ==> !s.done && s.rc.memory == old(s.rc.memory) + size &&
 //@         (forall j int :: 0 <= j && j < len(s.edges) ==> s.edges[j].rc.memory == old(s.edges[j].rc.memory) + size)
@@ -260,11 +286,14 @@ package rcmgr
 
 //@ func (s *resourceScope) addStreamForEdges
 //@ prop C03
+//@ ensures freshZero()
 //@ requires s.owner == nil && true && allNonneg() && edgesOK(s)
+//@ loop 0 invariant freshZero()
 //@ loop 0 invariant 0 <= reserved && reserved <= len(s.edges) && idx0 == reserved && err == nil
 //@ loop 0 invariant forall j int :: 0 <= j && j < reserved ==> s.edges[j].rc.nstreamsIn == old(s.edges[j].rc.nstreamsIn) + ite(dir == network.DirInbound, 1, 0) && s.edges[j].rc.nstreamsOut == old(s.edges[j].rc.nstreamsOut) + ite(dir == network.DirInbound, 0, 1) && !s.edges[j].done
 //@ loop 0 invariant forall r *resources :: (r.nstreamsIn == old(r.nstreamsIn) && r.nstreamsOut == old(r.nstreamsOut)) || (exists j int :: 0 <= j && j < reserved && r == &s.edges[j].rc)
 //@ loop 0 invariant allNonneg()
+//@ loop 1 invariant freshZero()
 //@ loop 1 invariant 0 <= idx1 && idx1 <= reserved && reserved <= len(s.edges) && err != nil
 //@ loop 1 invariant forall j int :: idx1 <= j && j < reserved ==> s.edges[j].rc.nstreamsIn == old(s.edges[j].rc.nstreamsIn) + ite(dir == network.DirInbound, 1, 0) && s.edges[j].rc.nstreamsOut == old(s.edges[j].rc.nstreamsOut) + ite(dir == network.DirInbound, 0, 1) && !s.edges[j].done
 //@ loop 1 invariant forall r *resources :: (r.nstreamsIn == old(r.nstreamsIn) && r.nstreamsOut == old(r.nstreamsOut)) || (exists j int :: idx1 <= j && j < reserved && r == &s.edges[j].rc)
@@ -279,6 +308,7 @@ package rcmgr
 
 //@ func (s *resourceScope) AddStream
 //@ prop C03
+//@ ensures freshZero()
 //@ requires s.owner == nil && true && allNonneg() && edgesOK(s)
 //@ ensures result == nil ==> !s.done && s.rc.nstreamsIn == old(s.rc.nstreamsIn) + ite(dir == network.DirInbound, 1, 0) && s.rc.nstreamsOut == old(s.rc.nstreamsOut) + ite(dir == network.DirInbound, 0, 1) &&
 //@         (forall j int :: 0 <= j && j < len(s.edges) ==> s.edges[j].rc.nstreamsIn == old(s.edges[j].rc.nstreamsIn) + ite(dir == network.DirInbound, 1, 0) && s.edges[j].rc.nstreamsOut == old(s.edges[j].rc.nstreamsOut) + ite(dir == network.DirInbound, 0, 1))
@@ -290,11 +320,14 @@ package rcmgr
 
 //@ func (s *resourceScope) addConnForEdges
 //@ prop C03
+//@ ensures freshZero()
 //@ requires s.owner == nil && true && allNonneg() && edgesOK(s)
+//@ loop 0 invariant freshZero()
 //@ loop 0 invariant 0 <= reserved && reserved <= len(s.edges) && idx0 == reserved && err == nil
 //@ loop 0 invariant forall j int :: 0 <= j && j < reserved ==> s.edges[j].rc.nconnsIn == old(s.edges[j].rc.nconnsIn) + ite(dir == network.DirInbound, 1, 0) && s.edges[j].rc.nconnsOut == old(s.edges[j].rc.nconnsOut) + ite(dir == network.DirInbound, 0, 1) && s.edges[j].rc.nfd == old(s.edges[j].rc.nfd) + ite(usefd, 1, 0) && !s.edges[j].done
 //@ loop 0 invariant forall r *resources :: (r.nconnsIn == old(r.nconnsIn) && r.nconnsOut == old(r.nconnsOut) && r.nfd == old(r.nfd)) || (exists j int :: 0 <= j && j < reserved && r == &s.edges[j].rc)
 //@ loop 0 invariant allNonneg()
+//@ loop 1 invariant freshZero()
 //@ loop 1 invariant 0 <= idx1 && idx1 <= reserved && reserved <= len(s.edges) && err != nil
 //@ loop 1 invariant forall j int :: idx1 <= j && j < reserved ==> s.edges[j].rc.nconnsIn == old(s.edges[j].rc.nconnsIn) + ite(dir == network.DirInbound, 1, 0) && s.edges[j].rc.nconnsOut == old(s.edges[j].rc.nconnsOut) + ite(dir == network.DirInbound, 0, 1) && s.edges[j].rc.nfd == old(s.edges[j].rc.nfd) + ite(usefd, 1, 0) && !s.edges[j].done
 //@ loop 1 invariant forall r *resources :: (r.nconnsIn == old(r.nconnsIn) && r.nconnsOut == old(r.nconnsOut) && r.nfd == old(r.nfd)) || (exists j int :: idx1 <= j && j < reserved && r == &s.edges[j].rc)
@@ -309,6 +342,7 @@ package rcmgr
 
 //@ func (s *resourceScope) AddConn
 //@ prop C03
+//@ ensures freshZero()
 //@ requires s.owner == nil && true && allNonneg() && edgesOK(s)
 //@ ensures result == nil ==> !s.done && s.rc.nconnsIn == old(s.rc.nconnsIn) + ite(dir == network.DirInbound, 1, 0) && s.rc.nconnsOut == old(s.rc.nconnsOut) + ite(dir == network.DirInbound, 0, 1) && s.rc.nfd == old(s.rc.nfd) + ite(usefd, 1, 0) &&
 //@         (forall j int :: 0 <= j && j < len(s.edges) ==> s.edges[j].rc.nconnsIn == old(s.edges[j].rc.nconnsIn) + ite(dir == network.DirInbound, 1, 0) && s.edges[j].rc.nconnsOut == old(s.edges[j].rc.nconnsOut) + ite(dir == network.DirInbound, 0, 1) && s.edges[j].rc.nfd == old(s.edges[j].rc.nfd) + ite(usefd, 1, 0))
@@ -320,7 +354,9 @@ package rcmgr
 
 //@ func (s *resourceScope) releaseMemoryForEdges
 //@ prop C03
+//@ ensures freshZero()
 //@ requires s.owner == nil && size >= 0 && allNonneg() && edgesOK(s)
+//@ loop 0 invariant freshZero()
 //@ loop 0 invariant 0 <= idx0 && idx0 <= len(s.edges)
 //@ loop 0 invariant forall j int :: 0 <= j && j < idx0 ==> (!s.edges[j].done ==> s.edges[j].rc.memory == max(0, old(s.edges[j].rc.memory) - size)) && (s.edges[j].done ==> s.edges[j].rc.memory == old(s.edges[j].rc.memory))
 //@ loop 0 invariant forall r *resources :: (r.memory == old(r.memory)) || (exists j int :: 0 <= j && j < idx0 && r == &s.edges[j].rc)
@@ -332,6 +368,7 @@ package rcmgr
 
 //@ func (s *resourceScope) ReleaseMemory
 //@ prop C03
+//@ ensures freshZero()
 //@ requires s.owner == nil && size >= 0 && allNonneg() && edgesOK(s)
 //@ ensures !s.done ==> s.rc.memory == max(0, old(s.rc.memory) - size) &&
 //@         (forall j int :: 0 <= j && j < len(s.edges) ==> (!s.edges[j].done ==> s.edges[j].rc.memory == max(0, old(s.edges[j].rc.memory) - size)) && (s.edges[j].done ==> s.edges[j].rc.memory == old(s.edges[j].rc.memory)))
@@ -342,7 +379,9 @@ package rcmgr
 
 //@ func (s *resourceScope) removeStreamForEdges
 //@ prop C03
+//@ ensures freshZero()
 //@ requires s.owner == nil && true && allNonneg() && edgesOK(s)
+//@ loop 0 invariant freshZero()
 //@ loop 0 invariant 0 <= idx0 && idx0 <= len(s.edges)
 //@ loop 0 invariant forall j int :: 0 <= j && j < idx0 ==> (!s.edges[j].done ==> s.edges[j].rc.nstreamsIn == max(0, old(s.edges[j].rc.nstreamsIn) - ite(dir == network.DirInbound, 1, 0)) && s.edges[j].rc.nstreamsOut == max(0, old(s.edges[j].rc.nstreamsOut) - ite(dir == network.DirInbound, 0, 1))) && (s.edges[j].done ==> s.edges[j].rc.nstreamsIn == old(s.edges[j].rc.nstreamsIn) && s.edges[j].rc.nstreamsOut == old(s.edges[j].rc.nstreamsOut))
 //@ loop 0 invariant forall r *resources :: (r.nstreamsIn == old(r.nstreamsIn) && r.nstreamsOut == old(r.nstreamsOut)) || (exists j int :: 0 <= j && j < idx0 && r == &s.edges[j].rc)
@@ -354,6 +393,7 @@ package rcmgr
 
 //@ func (s *resourceScope) RemoveStream
 //@ prop C03
+//@ ensures freshZero()
 //@ requires s.owner == nil && true && allNonneg() && edgesOK(s)
 //@ ensures !s.done ==> s.rc.nstreamsIn == max(0, old(s.rc.nstreamsIn) - ite(dir == network.DirInbound, 1, 0)) && s.rc.nstreamsOut == max(0, old(s.rc.nstreamsOut) - ite(dir == network.DirInbound, 0, 1)) &&
 //@         (forall j int :: 0 <= j && j < len(s.edges) ==> (!s.edges[j].done ==> s.edges[j].rc.nstreamsIn == max(0, old(s.edges[j].rc.nstreamsIn) - ite(dir == network.DirInbound, 1, 0)) && s.edges[j].rc.nstreamsOut == max(0, old(s.edges[j].rc.nstreamsOut) - ite(dir == network.DirInbound, 0, 1))) && (s.edges[j].done ==> s.edges[j].rc.nstreamsIn == old(s.edges[j].rc.nstreamsIn) && s.edges[j].rc.nstreamsOut == old(s.edges[j].rc.nstreamsOut)))
@@ -364,7 +404,9 @@ package rcmgr
 
 //@ func (s *resourceScope) removeConnForEdges
 //@ prop C03
+//@ ensures freshZero()
 //@ requires s.owner == nil && true && allNonneg() && edgesOK(s)
+//@ loop 0 invariant freshZero()
 //@ loop 0 invariant 0 <= idx0 && idx0 <= len(s.edges)
 //@ loop 0 invariant forall j int :: 0 <= j && j < idx0 ==> (!s.edges[j].done ==> s.edges[j].rc.nconnsIn == max(0, old(s.edges[j].rc.nconnsIn) - ite(dir == network.DirInbound, 1, 0)) && s.edges[j].rc.nconnsOut == max(0, old(s.edges[j].rc.nconnsOut) - ite(dir == network.DirInbound, 0, 1)) && s.edges[j].rc.nfd == max(0, old(s.edges[j].rc.nfd) - ite(usefd, 1, 0))) && (s.edges[j].done ==> s.edges[j].rc.nconnsIn == old(s.edges[j].rc.nconnsIn) && s.edges[j].rc.nconnsOut == old(s.edges[j].rc.nconnsOut) && s.edges[j].rc.nfd == old(s.edges[j].rc.nfd))
 //@ loop 0 invariant forall r *resources :: (r.nconnsIn == old(r.nconnsIn) && r.nconnsOut == old(r.nconnsOut) && r.nfd == old(r.nfd)) || (exists j int :: 0 <= j && j < idx0 && r == &s.edges[j].rc)
@@ -376,6 +418,7 @@ package rcmgr
 
 //@ func (s *resourceScope) RemoveConn
 //@ prop C03
+//@ ensures freshZero()
 //@ requires s.owner == nil && true && allNonneg() && edgesOK(s)
 //@ ensures !s.done ==> s.rc.nconnsIn == max(0, old(s.rc.nconnsIn) - ite(dir == network.DirInbound, 1, 0)) && s.rc.nconnsOut == max(0, old(s.rc.nconnsOut) - ite(dir == network.DirInbound, 0, 1)) && s.rc.nfd == max(0, old(s.rc.nfd) - ite(usefd, 1, 0)) &&
 //@         (forall j int :: 0 <= j && j < len(s.edges) ==> (!s.edges[j].done ==> s.edges[j].rc.nconnsIn == max(0, old(s.edges[j].rc.nconnsIn) - ite(dir == network.DirInbound, 1, 0)) && s.edges[j].rc.nconnsOut == max(0, old(s.edges[j].rc.nconnsOut) - ite(dir == network.DirInbound, 0, 1)) && s.edges[j].rc.nfd == max(0, old(s.edges[j].rc.nfd) - ite(usefd, 1, 0))) && (s.edges[j].done ==> s.edges[j].rc.nconnsIn == old(s.edges[j].rc.nconnsIn) && s.edges[j].rc.nconnsOut == old(s.edges[j].rc.nconnsOut) && s.edges[j].rc.nfd == old(s.edges[j].rc.nfd)))
@@ -386,7 +429,9 @@ package rcmgr
 
 //@ func (s *resourceScope) ReleaseResources
 //@ prop C03
+//@ ensures freshZero()
 //@ requires s.owner == nil && statNonneg(st) && allNonneg() && edgesOK(s)
+//@ loop 0 invariant freshZero()
 //@ loop 0 invariant 0 <= idx0 && idx0 <= len(s.edges)
 //@ loop 0 invariant forall j int :: 0 <= j && j < idx0 ==> (!s.edges[j].done ==> s.edges[j].rc.memory == max(0, old(s.edges[j].rc.memory) - st.Memory) && s.edges[j].rc.nstreamsIn == max(0, old(s.edges[j].rc.nstreamsIn) - st.NumStreamsInbound) && s.edges[j].rc.nstreamsOut == max(0, old(s.edges[j].rc.nstreamsOut) - st.NumStreamsOutbound) && s.edges[j].rc.nconnsIn == max(0, old(s.edges[j].rc.nconnsIn) - st.NumConnsInbound) && s.edges[j].rc.nconnsOut == max(0, old(s.edges[j].rc.nconnsOut) - st.NumConnsOutbound) && s.edges[j].rc.nfd == max(0, old(s.edges[j].rc.nfd) - st.NumFD)) && (s.edges[j].done ==> s.edges[j].rc.memory == old(s.edges[j].rc.memory) && s.edges[j].rc.nstreamsIn == old(s.edges[j].rc.nstreamsIn) && s.edges[j].rc.nstreamsOut == old(s.edges[j].rc.nstreamsOut) && s.edges[j].rc.nconnsIn == old(s.edges[j].rc.nconnsIn) && s.edges[j].rc.nconnsOut == old(s.edges[j].rc.nconnsOut) && s.edges[j].rc.nfd == old(s.edges[j].rc.nfd))
 //@ loop 0 invariant forall r *resources :: (r.memory == old(r.memory) && r.nstreamsIn == old(r.nstreamsIn) && r.nstreamsOut == old(r.nstreamsOut) && r.nconnsIn == old(r.nconnsIn) && r.nconnsOut == old(r.nconnsOut) && r.nfd == old(r.nfd)) || r == &s.rc || (exists j int :: 0 <= j && j < idx0 && r == &s.edges[j].rc)
@@ -400,7 +445,9 @@ package rcmgr
 
 //@ func (s *resourceScope) doneUnlocked
 //@ prop C03
+//@ ensures freshZero()
 //@ requires s.owner == nil && allNonneg() && edgesOK(s)
+//@ loop 0 invariant freshZero()
 //@ loop 0 invariant 0 <= idx0 && idx0 <= len(s.edges) && !s.done
 //@ loop 0 invariant stat.Memory == old(s.rc.memory) && stat.NumStreamsInbound == old(s.rc.nstreamsIn) && stat.NumStreamsOutbound == old(s.rc.nstreamsOut) &&
 //@         stat.NumConnsInbound == old(s.rc.nconnsIn) && stat.NumConnsOutbound == old(s.rc.nconnsOut) && stat.NumFD == old(s.rc.nfd)
@@ -436,6 +483,7 @@ package rcmgr
 //@     e.rc.nconnsIn == max(0, old(e.rc.nconnsIn) - old(s.rc.nconnsIn)) && e.rc.nconnsOut == max(0, old(e.rc.nconnsOut) - old(s.rc.nconnsOut)) &&
 //@     e.rc.nfd == max(0, old(e.rc.nfd) - old(s.rc.nfd))
 //@ pred zero6(r *resources) = r.memory == 0 && r.nstreamsIn == 0 && r.nstreamsOut == 0 && r.nconnsIn == 0 && r.nconnsOut == 0 && r.nfd == 0
+//@ pred freshZero() = forall x *resourceScope :: fresh(x) ==> zero6(&x.rc) && !x.done
 //@ pred mgrOK(r *resourceManager) = r != nil && r.system != nil && r.transient != nil &&
 //@     r.system.resourceScope != nil && r.transient.resourceScope != nil &&
 //@     ghost.kind(r.system.resourceScope) == 0 && ghost.kind(r.transient.resourceScope) == 1 &&
@@ -559,6 +607,7 @@ package rcmgr
 //@ prop C03
 //@ requires s.resourceScope != nil && mgrOK(s.rcmgr) && allNonneg() && edgesOK(s.resourceScope) && s.resourceScope.owner == nil
 //@ requires ghost.kind(s.resourceScope) == 8 && stdDistinct(s)
+//@ loop 0 invariant freshZero()
 //@ loop 0 invariant 0 <= idx0 && idx0 <= len(s.edges) && len(s.edges) == len(old(s.edges))
 //@ loop 0 invariant forall j int :: 0 <= j && j < len(s.edges) ==> s.edges[j] == old(s.edges[j])
 //@ loop 0 invariant stat.Memory == old(s.rc.memory) && stat.NumStreamsInbound == old(s.rc.nstreamsIn) && stat.NumStreamsOutbound == old(s.rc.nstreamsOut) &&
@@ -591,6 +640,7 @@ package rcmgr
 
 //@ func (s *connectionScope) SetPeer
 //@ prop C03
+//@ ensures freshZero()
 //@ opaque AllowedPeerAndMultiaddr
 //@ requires s.resourceScope != nil && mgrOK(s.rcmgr) && alOK(s.rcmgr) && allNonneg() && s.resourceScope.owner == nil
 //@ requires ghost.kind(s.resourceScope) == 8
